@@ -204,8 +204,9 @@ fn strategy() -> impl Strategy<Value = C20Case> {
         proptest::collection::vec((0u32..16, any::<bool>(), 0u64..3), 0..4),
         proptest::option::of((any::<bool>(), 0u32..14, 0u64..4000)),
         proptest::option::of((0u32..14, 0u8..3)),
+        proptest::option::weighted(0.3, (any::<bool>(), 1u32..10, 0u64..2)),
     )
-        .prop_map(|(mut sc, prompts, suspend, blackout)| {
+        .prop_map(|(mut sc, prompts, suspend, blackout, cancel)| {
             // several segments, so that "midway" exists
             if let Some(f) = sc.puts[0].file.as_mut() {
                 let seg = sc.entities[0].cfg.seg as u32;
@@ -231,6 +232,14 @@ fn strategy() -> impl Strategy<Value = C20Case> {
                     trigger: Trigger::OnIndication { entity: who, put: 0, kind: "suspended".into(), delay_ms: len },
                     entity: who,
                     kind: ActionKind::Resume { put: 0 },
+                });
+            }
+            // a cancel in the middle of the file: the figures reported afterwards (resumed, fault, abandon) still are what was held / sent
+            if let Some((at_recv, k, d)) = cancel {
+                sc.actions.push(Action {
+                    trigger: Trigger::OnOrdinal { from: 0, to: 1, ordinal: k, delay_ms: d },
+                    entity: if at_recv { 1 } else { 0 },
+                    kind: ActionKind::Cancel { put: 0 },
                 });
             }
             if let Some((k, which)) = blackout {
@@ -290,7 +299,7 @@ fn puppet_overlaps(seed: u64) -> C20Case {
 
 pub fn run(ctx: &mut Ctx) {
     ctx.rule = "proptest: the general acknowledged-mode scenario generator (segment sizes, contents, NAK procedures, CRC, limits, timeouts, id widths, link timing, up to 3 faults incl. duplicates) with files of \
->= 3 segments, plus 0..3 Prompt(keep-alive) requests when the link sees datagram k of either direction, optionally a suspend/resume pair at either entity (suspension 0..4 s) and optionally a blackout of \
+>= 3 segments, plus 0..3 Prompt(keep-alive) requests when the link sees datagram k of either direction, optionally a suspend/resume pair at either entity (suspension 0..4 s), in 3 of 10 cases a user cancel at either entity in the middle of the first pass, and optionally a blackout of \
 either/both directions from ordinal k (provoking limit faults and abandon); plus a puppet-sender family: 3..10 arbitrary segments (starting at earlier segment boundaries, anywhere, or 8-aligned; up to 2 segments long, \
 overlapping, duplicated, out of order) each followed by a keep-alive prompt to a real receiver. Non-trivial = some figure was reported while 0 < progress < file size; distinct by scenario."
         .into();
